@@ -51,6 +51,7 @@ type wreq struct {
 	Cookies []string
 	Body    []byte
 	ID      string
+	Fwd     forward // hostile forwarding headers / Host header of this request (applied by runner.request)
 }
 
 type wresult struct {
